@@ -358,4 +358,25 @@ Theorem C14_fragment_unit_with_type_sections_single_eof_line :
     nth_error (render_unit2 ds ss) e = Some RTT_Eof /\ length (render_unit2 ds ss) = S e.
 Proof. exact fragment_unit2_single_eof_line. Qed.
 
+(* which lines have a parent, for units with var/const/type sections: exactly those in a then/else/do/colon body of the main block *)
+From PasfmtVerif Require Import Model.Fragment Proofs.FragmentProofs Proofs.FragmentParentsProofs Proofs.FragmentUnitProofs Proofs.FragmentUnitParentsProofs.
+Theorem C14_fragment_unit_line_has_a_parent_iff_in_a_body :
+  forall (ds : list udecl) (ss : stmts),
+  wf ss = true ->
+  forall (l : lline) (f : nat),
+  In l (r_lines (parse_file_model (render_unit2 ds ss) [])) ->
+  hd_error (ll_toks l) = Some f ->
+  (ll_parent l <> None <-> in_spans (unit2_body_spans ds ss) f = true) /\
+  (forall i t : nat,
+   ll_parent l = Some (i, t) -> exists a b : nat, In (t, a, b) (unit2_body_spans ds ss)).
+Proof. exact fragment_unit2_parent_iff. Qed.
+
+Theorem C14_fragment_unit_section_lines_have_no_parent :
+  forall (ds : list udecl) (ss : stmts),
+  wf ss = true ->
+  forall (l : lline) (f : nat),
+  In l (r_lines (parse_file_model (render_unit2 ds ss) [])) ->
+  hd_error (ll_toks l) = Some f -> (f <= length (render_udecls ds))%nat -> ll_parent l = None.
+Proof. exact fragment_unit2_section_lines_no_parent. Qed.
+
 
